@@ -190,7 +190,7 @@ theorem wf_set (E : Env) (a : Attr) (v : Val) (l l' : Layer) (hwf : WF l) (h : A
 
 /-! ### moving keeps the size -/
 
-theorem move_left_keeps_width (E : Env) (v w : Int) (l l' : Layer)
+theorem move_left_keeps_width_partial (E : Env) (v w : Int) (l l' : Layer)
     (h : Attr.set E .left (.int v) l = .ok l') (hw : width l = .ok w)
     (hfill : l.kind = .fill → v + w ≠ 0) : width l' = .ok w := by
   simp only [Attr.set, setLeft, hw] at h
@@ -212,7 +212,7 @@ theorem move_left_keeps_height (E : Env) (v : Int) (l l' : Layer)
     · simp at h
   · simp at h
 
-theorem move_top_keeps_height (E : Env) (v w : Int) (l l' : Layer)
+theorem move_top_keeps_height_partial (E : Env) (v w : Int) (l l' : Layer)
     (h : Attr.set E .top (.int v) l = .ok l') (hw : height l = .ok w)
     (hfill : l.kind = .fill → v + w ≠ 0) : height l' = .ok w := by
   simp only [Attr.set, setTop, hw] at h
@@ -234,15 +234,33 @@ theorem move_top_keeps_width (E : Env) (v : Int) (l l' : Layer)
     · simp at h
   · simp at h
 
+/-- The side condition is exact: when a fill layer is moved so that its right edge becomes 0,
+`FillLayer.right` falls back to the canvas width `W`, and the width becomes `W - v`. -/
+theorem fill_move_far_edge_zero (E : Env) (v w W H : Int) (l l' : Layer) (hk : l.kind = .fill)
+    (hp : l.psd = some (W, H)) (h : Attr.set E .left (.int v) l = .ok l') (hw : width l = .ok w)
+    (h0 : v + w = 0) : width l' = .ok (W - v) := by
+  simp only [Attr.set, setLeft, hw] at h
+  split at h
+  · injection h with h; subst h
+    simp [width, rightOf, hk, h0, hp]
+  · simp at h
+
 def envNone : Env := mkEnv [] [] false false
+
+/-- a 32 px wide fill layer in a 64 px wide document -/
 def fillW : Layer :=
   { kind := .fill, top := 0, left := 0, bottom := 32, right := 32, blend := kNorm, opacity := 255,
     clipping := 0, flags := {}, legacyName := [], blocks := [], pixels := [], psd := some (64, 64) }
 
+/-- ... so the full statement fails (known finding `C16/move/fill/far-edge-zero-falls-back-to-canvas`;
+the harness replays `layer.left = -width` on solid-color-fill.psd). -/
 theorem fill_move_changes_width :
     ∃ l', Attr.set envNone .left (.int (-32)) fillW = .ok l' ∧ width fillW = .ok 32 ∧ width l' = .ok 96 :=
   ⟨{ fillW with left := -32, right := 0 }, rfl, rfl, rfl⟩
 
+/-- the side condition is satisfiable: every move of a non-fill layer, and e.g. this move of a fill layer -/
+example : ∃ l', Attr.set envNone .left (.int 5) fillW = .ok l' ∧ width l' = .ok 32 :=
+  ⟨{ fillW with left := 5, right := 37 }, rfl, rfl⟩
 
 /-! ### persistence -/
 
